@@ -1,4 +1,4 @@
-import IV.Lemmas.CleanState
+import IV.Lemmas.CleanReport
 /-!
 C09 — obfuscation is a consistent mapping, injective for IPs and hosts, and reported.
 
@@ -315,6 +315,21 @@ theorem short_host_witness :
     r.2 = "at 0123456789ab.0123456789ab.example.comxampl0123456789ab.example.com.com".toList := by
   decide
 
+/-- known finding `ipv6-substitute-collision` (round 10): the IPv6 guard "this text is an issued substitute" is consulted
+only for addresses that are NOT yet originals.  Whole history on a fresh Cleaner (hash: digit `1 ↦ 2`, `2 ↦ 3`): call 1
+cleans `["a a::1", "b a::2"]` bottom-up, so `a::2` becomes an original (`↦ a::3`) BEFORE it is issued as the substitute
+of `a::1`; call 2 cleans `"c a::1 a::2"`: `a::1` is replaced by `a::2`, then every `a::2` by `a::3` — the output shows
+`a::1` as `a::3` while `mapping()` pairs it with `a::2` -/
+theorem ip6_collision_witness :
+    let bump : Char → Char := fun c => if c = '1' then '2' else if c = '2' then '3' else c
+    let E : Env := ⟨fun _ => [], fun _ => [], fun _ => [], fun _ => false,
+      fun line => (splitOn ' ' line).filter (fun w => w.contains ':'), fun _ => false, fun s => s.map bump, id, {}⟩
+    let cfg : Cfg := ⟨"h.d".toList, true, true, false, false, [], []⟩
+    let h : List Call := [⟨[], false, none, ["a a::1".toList, "b a::2".toList]⟩, ⟨[], false, none, ["c a::1 a::2".toList]⟩]
+    (runHistory E cfg (initSt E cfg) h).2 = [["a a::2".toList, "b a::3".toList], ["c a::3 a::3".toList]] ∧
+    ip6Mapping (after E cfg h) = [("a::2".toList, "a::3".toList), ("a::1".toList, "a::2".toList)] := by
+  decide
+
 /-! ### width-preserving mode and calls that raise
 
 `runHistoryW` mixes ordinary calls with `width=True` calls; a width call may RAISE (`none`: the spec is not emitted)
@@ -391,6 +406,175 @@ theorem keepWidth_from_replaced (line ip new out : Str) (h : keepWidth line ip n
 example : keepWidth "x 1.2.3.4".toList "1.2.3.4".toList "10.230.230.1".toList = none ∧
     keepWidth "192.168.100.200".toList "192.168.100.200".toList "10.230.230.1".toList = none ∧
     keepWidth "1.2.3.4:22      x".toList "1.2.3.4".toList "10.230.230.1".toList = some "10.230.230.1:22 x".toList := by
+  decide
+
+/-! ## the report side: `Cleaner.generate_report` (facts file + CSV files), taken at ANY point of a history -/
+
+/-- **report_is_mapping** — every CSV file lists the `mapping()` of its obfuscator entry for entry (columns swapped:
+`obfuscated,original`; the keyword file keeps `original,replacement`), and the five lists of the facts file ARE the
+`mapping()` lists of the obfuscators that exist. -/
+theorem report_is_mapping (E : Env) (cfg : Cfg) (st : St) :
+    (ipRows st).map Prod.swap = ipMapping st ∧ (macRows st).map Prod.swap = macMapping st ∧
+    (ip6Rows st).map Prod.swap = ip6Mapping st ∧ (0 < st.hnCount → (hostRows st).map Prod.swap = hostMapping st) ∧
+    kwRows E cfg st = kwMapping E cfg st ∧
+    (Stage.enabled cfg .ip = true → (generateReport E cfg st).factsIp = ipMapping st) ∧
+    (Stage.enabled cfg .hostname = true → (generateReport E cfg st).factsHost = hostMapping st) ∧
+    (Stage.enabled cfg .mac = true → (generateReport E cfg st).factsMac = macMapping st) ∧
+    (Stage.enabled cfg .ipv6 = true → (generateReport E cfg st).factsIp6 = ip6Mapping st) ∧
+    (Stage.enabled cfg .keyword = true → (generateReport E cfg st).factsKw = kwMapping E cfg st) := by
+  refine ⟨?_, ?_, ?_, ?_, rfl, ?_, ?_, ?_, ?_, ?_⟩
+  · simp [ipRows, ipMapping, List.map_map, Function.comp_def]
+  · simp [macRows, macMapping, List.map_map, Function.comp_def]
+  · simp [ip6Rows, ip6Mapping, List.map_map, Function.comp_def]
+  · intro h; simp [hostRows, hostMapping, h]
+  all_goals (intro h; simp [generateReport, h])
+
+example : (generateReport (witnessEnv0 ["1.2.3.4".toList]) ⟨"h.d".toList, true, false, false, false, [], []⟩
+    (after (witnessEnv0 ["1.2.3.4".toList]) ⟨"h.d".toList, true, false, false, false, [], []⟩
+      [⟨[], false, none, ["x".toList]⟩])).ipCsv =
+    some "Obfuscated IPv4,Original IPv4\n10.230.230.1,1.2.3.4\n".toList := by decide
+
+/-- **report_files_flags** — which files a report writes and what the facts file says is enabled are the same
+switches: a CSV file exists exactly for the obfuscators the facts call enabled (keywords: iff configured), and
+the system name of the facts is the Cleaner's. -/
+theorem report_files_flags (E : Env) (cfg : Cfg) (st : St) :
+    let r := generateReport E cfg st
+    r.ipCsv.isSome = r.ip4On ∧ r.ip6Csv.isSome = r.ip6On ∧ r.hostCsv.isSome = r.hostOn ∧ r.macCsv.isSome = r.macOn ∧
+    r.kwCsv.isSome = !cfg.keywords.isEmpty ∧ r.ip4On = cfg.obfuscate ∧ r.ip6On = (cfg.obfuscate && cfg.obfuscateIpv6) ∧
+    r.hostOn = (cfg.obfuscate && cfg.obfuscateHostname) ∧ r.macOn = (cfg.obfuscate && cfg.obfuscateMac) ∧
+    r.sysName = cfg.fqdn ∧
+    (r.ip4On = false → r.factsIp = []) ∧ (r.hostOn = false → r.factsHost = []) ∧ (r.macOn = false → r.factsMac = []) := by
+  obtain ⟨fq, o, o6, oh, om, kws, pats⟩ := cfg
+  intro r
+  simp only [r, generateReport, Stage.enabled]
+  cases o <;> cases o6 <;> cases oh <;> cases om <;> cases kws <;> simp
+
+example : (generateReport hostEnv0 ⟨"h.d".toList, false, true, true, true, ["k".toList], []⟩ {}).ipCsv = none ∧
+    (generateReport hostEnv0 ⟨"h.d".toList, false, true, true, true, ["k".toList], []⟩ {}).kwCsv =
+      some "Replaced Keyword,Original Keyword\n".toList := by decide
+
+/-- **report_each_once** — after every history, in every report: no host substitute and no host original is listed
+twice, no MAC / IPv6 original is listed twice; no IPv4 substitute TEXT is listed twice while the address space is not
+exhausted, and no IPv4 original text is listed twice when the recogniser only hands over 32-bit addresses. -/
+theorem report_each_once (E : Env) (cfg : Cfg) (hE : HexDigest E) (h : List Call) :
+    let st := after E cfg h
+    ((hostRows st).map Prod.fst).Nodup ∧ ((hostRows st).map Prod.snd).Nodup ∧
+    ((macRows st).map Prod.snd).Nodup ∧ ((ip6Rows st).map Prod.snd).Nodup ∧
+    (st.ipDb.length ≤ 2 ^ 32 - startIp → ((ipRows st).map Prod.fst).Nodup) ∧
+    ((∀ v ∈ st.foundIp, v < 2 ^ 32) → ((ipRows st).map Prod.snd).Nodup) := by
+  intro st
+  have inv := history_invariant E cfg hE h
+  refine ⟨?_, ?_, ?_, ?_, ?_, ?_⟩
+  · unfold hostRows; split
+    · rw [inv.hnKeys]; exact hostKeys_nodup E cfg hE _
+    · simp
+  · unfold hostRows; split
+    · exact inv.hnVals
+    · simp
+  · have : (macRows st).map Prod.snd = st.macDb.map Prod.fst := by simp [macRows, List.map_map, Function.comp_def]
+    rw [this]; exact inv.macKeys
+  · have : (ip6Rows st).map Prod.snd = st.ip6Db.map Prod.fst := by simp [ip6Rows, List.map_map, Function.comp_def]
+    rw [this]; exact inv.ip6Keys
+  · intro hb
+    have hr := (ip_keys_range E cfg hE h).2 hb
+    have e : (ipRows st).map Prod.fst = (st.ipDb.map Prod.fst).map int2ip := by
+      simp [ipRows, List.map_map, Function.comp_def]
+    rw [e]
+    apply nodup_map_of_inj_on
+    · rw [inv.ipKeys]; exact List.nodup_range'
+    · intro a ha b hb' eab
+      obtain ⟨p, hp, rfl⟩ := List.mem_map.mp ha
+      obtain ⟨q, hq, rfl⟩ := List.mem_map.mp hb'
+      exact int2ip_inj _ _ (hr p hp).2 (hr q hq).2 eab
+  · intro hf
+    have e : (ipRows st).map Prod.snd = (st.ipDb.map Prod.snd).map int2ip := by
+      simp [ipRows, List.map_map, Function.comp_def]
+    rw [e]
+    apply nodup_map_of_inj_on _ _ inv.ipVals
+    intro a ha b hb' eab
+    exact int2ip_inj _ _ (hf a (inv.ipFoundSub a ha)) (hf b (inv.ipFoundSub b hb')) eab
+
+example : ipRows (after (witnessEnv0 ["1.2.3.4".toList, "9.9.9.9".toList]) ⟨"h.d".toList, true, false, false, false, [], []⟩
+    [⟨[], false, none, ["x".toList]⟩, ⟨[], false, none, ["y".toList]⟩]) =
+    [("10.230.230.1".toList, "1.2.3.4".toList), ("10.230.230.2".toList, "9.9.9.9".toList)] := by decide
+
+/-- **report_exact** — no phantom and no omission: after every history each IPv4 / host / MAC row's original was handed
+over by a recogniser on a processed line (or is the system's own name), and every original so handed over has a row. -/
+theorem report_exact (E : Env) (cfg : Cfg) (hE : HexDigest E) (h : List Call) :
+    let st := after E cfg h
+    (∀ r ∈ ipRows st, ∃ v ∈ st.foundIp, r.2 = int2ip v) ∧ (∀ v ∈ st.foundIp, ∃ r ∈ ipRows st, r.2 = int2ip v) ∧
+    (0 < st.hnCount → ∀ r ∈ hostRows st, r.2 = cfg.fqdn ∨ r.2 ∈ st.foundHost) ∧
+    (0 < st.hnCount → ∀ o ∈ st.foundHost, ∃ r ∈ hostRows st, r.2 = o) ∧
+    (∀ r ∈ macRows st, r.2 ∈ st.foundMac) ∧ (∀ o ∈ st.foundMac, ∃ r ∈ macRows st, r.2 = o) := by
+  intro st
+  have me := mapping_exact E cfg hE h
+  obtain ⟨_, i1, i2, h1, h2, m1, m2⟩ := me
+  refine ⟨?_, ?_, ?_, ?_, ?_, ?_⟩
+  · intro r hr
+    obtain ⟨p, hp, rfl⟩ := List.mem_map.mp hr
+    exact ⟨p.2, i1 p hp, rfl⟩
+  · intro v hv
+    obtain ⟨k, hk⟩ := i2 v hv
+    exact ⟨_, List.mem_map.mpr ⟨(k, v), hk, rfl⟩, rfl⟩
+  · intro hc r hr
+    simp only [hostRows, hc, if_true] at hr
+    exact h1 r hr
+  · intro hc o ho
+    obtain ⟨k, hk⟩ := h2 o ho
+    exact ⟨(k, o), by simp only [hostRows, hc, if_true]; exact hk, rfl⟩
+  · intro r hr
+    obtain ⟨p, hp, rfl⟩ := List.mem_map.mp hr
+    exact m1 p hp
+  · intro o ho
+    obtain ⟨s', hs⟩ := m2 o ho
+    exact ⟨_, List.mem_map.mpr ⟨(o, s'), hs, rfl⟩, rfl⟩
+
+example : hostRows (after hostEnv0 ⟨"h.d".toList, true, false, true, false, [], []⟩ [⟨[], false, none, ["x".toList]⟩]) =
+    [("0123456789ab.example.com".toList, "h.d".toList), ("host2.example.com".toList, "a.d".toList),
+     ("host3.example.com".toList, "b.d".toList)] := by decide
+
+/-- **report_grows** — a report taken earlier is a PREFIX (row for row) of every report taken later in the same run:
+rows are never changed, dropped or reordered by further cleaning (nor by the reports in between, which change nothing). -/
+theorem report_grows (E : Env) (cfg : Cfg) (hE : HexDigest E) (h1 h2 : List Call) :
+    ipRows (after E cfg h1) <+: ipRows (after E cfg (h1 ++ h2)) ∧
+    macRows (after E cfg h1) <+: macRows (after E cfg (h1 ++ h2)) ∧
+    ip6Rows (after E cfg h1) <+: ip6Rows (after E cfg (h1 ++ h2)) ∧
+    (0 < (initSt E cfg).hnCount → hostRows (after E cfg h1) <+: hostRows (after E cfg (h1 ++ h2))) := by
+  have ext := db_grows E cfg hE h1 h2
+  refine ⟨?_, ?_, ?_, ?_⟩
+  · obtain ⟨t, ht⟩ := ext.ip
+    exact ⟨t.map (fun kv => (int2ip kv.1, int2ip kv.2)), by simp [ipRows, ← ht]⟩
+  · obtain ⟨t, ht⟩ := ext.mac
+    exact ⟨t.map (fun kv => (kv.2, kv.1)), by simp [macRows, ← ht]⟩
+  · obtain ⟨t, ht⟩ := ext.ip6
+    exact ⟨t.map (fun kv => (kv.2, kv.1)), by simp [ip6Rows, ← ht]⟩
+  · intro h0
+    have c1 := (history_invariant E cfg hE h1).hnCnt
+    have c2 := (history_invariant E cfg hE (h1 ++ h2)).hnCnt
+    have p1 : 0 < (after E cfg h1).hnCount := by omega
+    have p2 : 0 < (after E cfg (h1 ++ h2)).hnCount := by omega
+    simp only [hostRows, p1, p2, if_true]
+    exact ext.hn
+
+example : (0 < (initSt hostEnv0 ⟨"h.d".toList, true, false, true, false, [], []⟩).hnCount) := by decide
+
+/-- **report_rows_parse** — the pairing can be read back: splitting a written IPv4 row (any state) or host row (after any
+history) at its first comma gives exactly (substitute, original) — no substitute contains a comma. -/
+theorem report_rows_parse (E : Env) (cfg : Cfg) (hE : HexDigest E) (h : List Call) :
+    (∀ st : St, ∀ r ∈ ipRows st, splitRow (csvRow r.1 r.2) = some r) ∧
+    (0 < (after E cfg h).hnCount → ∀ r ∈ hostRows (after E cfg h), splitRow (csvRow r.1 r.2) = some r) := by
+  constructor
+  · intro st r hr
+    obtain ⟨p, _, rfl⟩ := List.mem_map.mp hr
+    exact splitRow_csvRow _ _ (comma_not_in_int2ip _)
+  · intro hc r hr
+    simp only [hostRows, hc, if_true] at hr
+    have inv := history_invariant E cfg hE h
+    have hk : r.1 ∈ hostKeys E cfg (after E cfg h).hnCount := by
+      rw [← inv.hnKeys]; exact List.mem_map.mpr ⟨r, hr, rfl⟩
+    exact splitRow_csvRow _ _ (comma_not_in_hostKeys E cfg hE _ _ hk)
+
+example : splitRow (csvRow "10.230.230.1".toList "1.2.3.4".toList) = some ("10.230.230.1".toList, "1.2.3.4".toList) := by
   decide
 
 end IV.CleanState
